@@ -15,6 +15,8 @@ Not decided (numerical): finiteness, monotonicity, lower bound, 0.5 % agreement 
   R10.5  rows:  dl + d + du = -1 on interior rows and on row 0,  the three coefficient slices are aligned
          (dl[0:n-2], d[1:n-1], du[1:n-1]),  capacity term = rho_cp * vol / dt of the centre cell,
          right-hand side -T_old (minus q / ad in row 0),  last row Dirichlet
+  R10.9  frame condition: a method that re-assigns an attribute also re-assigns, after it and by the constructor's
+         formula, every attribute the constructor derives from it (the mesh is never built from a half-refreshed state)
   R10.8  publication: lntts / g / g_bhw are the computed curves resampled on one uniform grid, g_sts interpolates them
   R10.6  outputs:  g = 2 pi k_s ((T_0 - T_init) / q - Rb*),  g_bhw = 2 pi k_s (T_wall - T_init) / q with
          T_wall the cell at bh_wall_idx,  lntts = ln(t / t_s),  t_s = H^2 / (9 alpha)
